@@ -182,9 +182,12 @@ class Built:
 
 def make_leaves(leaf_descs, vseed, dtype, tag=0):
     rng = np.random.default_rng([int(vseed), int(tag)])
-    leaves = []
+    leaves, arrays = [], []
     for ld in leaf_descs:
         a = rng.standard_normal(tuple(ld["shape"]))
+        if "like" in ld and ld["like"] < len(arrays) and arrays[ld["like"]].shape == a.shape:
+            a = arrays[ld["like"]]  # a distinct tensor with exactly the values of an earlier leaf of the same list (twin heads)
+        arrays.append(a)
         t = torch.tensor(a, dtype=torch.float64).to(dtype)
         if ld.get("nc") and t.ndim >= 2:
             # same values, non-contiguous memory layout (a transposed parameter, a channels_last weight, ...)
@@ -489,6 +492,11 @@ def gen_mtl_program(rng, dtype="float64", n_heads=None, n_features=None, allow_a
             for k in range(1, npool):
                 if rng.random() < 0.35:
                     pool[k]["shape"] = list(pool[int(rng.integers(k))]["shape"])
+            if npool and rng.random() < 0.3:
+                src = int(rng.integers(npool))
+                pool.append({"shape": list(pool[src]["shape"]), "rg": True, "like": src})
+                pool[src]["rg"] = True
+                npool += 1
         pl = make_leaves(pool, vseed, tdt, tag=1)
         heads = []
         ok = True
@@ -555,6 +563,19 @@ def gen_mtl_program(rng, dtype="float64", n_heads=None, n_features=None, allow_a
                           "deps": sorted(map(list, hg.deps[acc]))})
         if not ok:
             continue
+        # twin heads: a head repeated on a twin parameter (same values, another tensor): two DIFFERENT loss tensors with exactly
+        # EQUAL values (identically initialised heads on the same target), each with its own parameter
+        for j in range(npool):
+            src = pool[j].get("like")
+            if src is None or len(heads) >= 5:
+                continue
+            for h in list(heads):
+                if src in h["leaves"] and j not in h["leaves"] and (not disjoint_heads or h["leaves"] == [src]) \
+                        and not any(j in h2["leaves"] for h2 in heads):
+                    tw = {**h, "leaves": [j if x == src else x for x in h["leaves"]],
+                          "deps": sorted([d[0], j] if (d[0] == "p" and d[1] == src) else list(d) for d in h["deps"]), "twin_of_head": heads.index(h)}
+                    heads.append(tw)
+                    break
         return {"dtype": dtype, "vseed": vseed, "shared": shared, "trunk_nodes": g.nodes, "features": feats,
                 "feature_deps": [sorted(map(list, g.deps[f])) for f in feats], "pool": pool, "heads": heads}
     raise RuntimeError("could not generate a trunk/heads program")
